@@ -207,6 +207,7 @@ def update_each_iteration(ck, ctx):
 
 
 def run(ck, ctx):
+    C.adapter_census(ck, ctx, "table", ("work::", "run::"))
     SM.eff_table(ck, ctx, ["counts-prev", "counts-new"])
     ck.extra["exhaustive_subrule"] = "table: all 98 abstract inputs of BuildStates::set enumerated"
     SM.idx_bijection(ck, ctx)
